@@ -122,6 +122,15 @@ namespace Pistache::Tcp
                     auto tag = entry.getTag();
                     auto fd  = static_cast<Fd>(tag.value());
 
+                    // The peer may be gone by now: removed a few lines up when its
+                    // input ended, or earlier in this poll result.  Its descriptor
+                    // number can even be in use again already - accept() hands it
+                    // out at once and handleNewPeer() creates the write queue before
+                    // the new peer is registered with this worker's poller - so the
+                    // queue must not be looked at, let alone the descriptor re-armed.
+                    if (!isPeerFd(fd))
+                        continue;
+
                     bool pending;
                     {
                         Guard guard(toWriteLock);
